@@ -42,7 +42,7 @@ Apply(bal, ms) == IF ms = {} THEN bal ELSE LET m == CHOOSE x \in ms : TRUE IN Ap
 
 (* ---- guards of an executed transaction (DeliverTx code 0) ---- *)
 CanExecute(s, x) ==
-  /\ Get(s.nonce, x.from) <= x.nonce                       \* not below the sender's sequence
+  /\ Get(s.nonce, x.from) = x.nonce                        \* exactly the sender's sequence number (the mempool check also lets higher ones wait)
   /\ GetS(s.kind, x.from) = ""                             \* the sender is not a contract
   /\ Get(s.bal, x.from) >= x.gas * x.price + x.amt         \* can pay for the gas limit and the value
   /\ x.used <= x.gas /\ x.used >= 0
